@@ -118,7 +118,9 @@ partial def loop (h : IO.FS.Stream) (cur : Option (String × Replay × Nat × Op
               | some v => (match v.pc with | .dead => none | _ => some s!"{a}@t{v.thread}:{pcName v.pc}") | none => none)
             IO.println s!"  {n+1} `{line}` -> {actsS}"
           loop h (some (hdr, r', n + 1, none)) tot verbose
-        | .error e => loop h (some (hdr, r, n, some s!"event {n + 1} `{line}`: {e}")) tot verbose
+        | .error e =>
+          let pcS := match r.s.leafOf (threadModel r ag) with | some a => pcOf r.s a | none => "none"
+          loop h (some (hdr, r, n, some s!"event {n + 1} `{line}`: {e} :: pc={pcS}")) tot verbose
       | [] => loop h cur tot verbose
 
 def main (args : List String) : IO UInt32 := do
